@@ -258,6 +258,15 @@ def classify_c06(rec):
         return "F61-pointfree-transform-param"
     if rec["tag"] == "compile-err" and "cannot append two relations with non-matching number of columns" in txt and re.search(r"\bappend t\b", prql):
         return "F63-append-arity-wildcard"
+    if rec["tag"] == "sql-err" and 'near "OFFSET"' in txt and re.search(r"(?m)\btake \d+\.\.(?!\d)", prql) \
+            and any(not re.search(r"LIMIT -?\d+$", sql[:mo.start()]) for mo in re.finditer(r" OFFSET \d+", sql)):
+        # (the shared classifier looks at the LAST OFFSET only; with several takes the bare one can be an inner one)
+        return "F27-offset-without-limit" if rec["target"] == "sql.sqlite" else "oracle-generic-offset"
+    if rec["tag"] == "sql-err" and has_let and re.search(r"\bjoin\b", prql) and re.search(r"\bsort\b", prql):
+        mo = re.search(r"(?:ambiguous column name|no such column): ([A-Za-z_0-9.]+)", txt)
+        tail = sql[sql.rfind("ORDER BY"):] if "ORDER BY" in sql else ""
+        if mo and ")" not in tail and re.search(r"(?<![A-Za-z_0-9.])%s\b" % re.escape(mo.group(1)), tail):
+            return "C07-N1-order-by-inner-relation"
     if rec["tag"] == "sql-err":
         m = re.search(r"no such column: ([A-Za-z_0-9]+)", txt)
         if m:
@@ -509,4 +518,4 @@ def run():
         "let/into rewrites are applied only where the continuation has no qualified reference to the renamed relation (t.x / u.x) and the named frame has no duplicate column names; `select` of the full frame only on frames of distinct unqualified names",
         "function-call sites: expression slots of filter / derive / select / sort in the main pipeline; aggregate and window arguments and join conditions are not abstracted",
     ]
-    ck.finish(TRUSTED, "streams by rewrite kind: let (let + into, every prefix length), func (every expression slot x call variants pos/named-omit/named-pass/piped/piped-named/module/module2), trfunc (every run of 1..3 transforms as a transform function), filter (split of every conjunctive filter, merge of every adjacent pair), identity (derive {} / filter true / take 1.. / select of the full frame at every position, sort directly before every sort), module (every declaration moved into one or two nested modules), compose (random chains of 2 and 3 rewrites), tworef (append / self-join of one let-table referenced twice), module-siblings and pointfree (directed). Each pair on 1..3 instances x {sqlite, generic}; engine = abstract rewrites re-judged by the reference semantics inside Coq. distinct = hash of (base, rewritten, target, instance); non-trivial = non-empty base result or differing outcome kinds")
+    ck.finish(TRUSTED, "streams by rewrite kind: let (let + into, every prefix length), func (every expression slot x call variants pos/named-omit/named-pass/piped/piped-named/module/module2), trfunc (every run of 1..3 transforms as a transform function), filter (split of every conjunctive filter, merge of every adjacent pair), identity (derive {} / filter true / take 1.. / select of the full frame at every position, sort directly before every sort), module (declarations produced by let / function rewrites moved into one module, two nested modules, or one module with a different same-named decoy left at top level), compose (random chains of 2 and 3 rewrites), tworef (append / self-join / aliased direct self-join of one let-table referenced twice, also behind a module path), module-siblings and pointfree (directed). Each pair on 1..3 instances x {sqlite, generic}; engine = abstract rewrites re-judged by the reference semantics inside Coq; beta = `beta F C` of Model/Subst.v computed inside Coq equals the expression the generated call replaced. distinct = hash of (base, rewritten, target, instance); non-trivial = non-empty base result or differing outcome kinds")
